@@ -1,5 +1,6 @@
 import Mutagen.Proofs.Remote
 import Mutagen.Proofs.ReconcileValid
+import Mutagen.Properties.C19
 /-!
 # C21 — remote endpoints behave exactly like local endpoints
 
@@ -30,6 +31,26 @@ theorem snapshot_delta_exact {Sig Delta : Type} (c : Codec Sig Delta) (hc : c.Ex
         simp only [remoteScan, serveScan, clientScan, expectedScan, hc _ b]
         by_cases hv : valid b = true <;> simp [hv]
     rw [← h1, ← ih]
+
+/-- The hypothesis of `snapshot_delta_exact` is C19's theorem: the modelled
+rsync engine, with any collision-free (here: injective) strong hash and any
+positive block size function, is an exact codec. -/
+theorem rsync_codec_exact {D : Type} [DecidableEq D] (H : List UInt8 → D)
+    (hinj : ∀ a b, H a = H b → a = b) (blockSize : Bytes → Nat) (hbs : ∀ b, 0 < blockSize b) :
+    (rsyncCodec H blockSize).Exact := by
+  intro base target
+  have h := (Mutagen.Properties.C19.patch_deltify H base target (blockSize base) (hbs base) 0
+    (Mutagen.Properties.C19.noCollision_of_injective H hinj base target (blockSize base))).2
+  simp only [rsyncCodec]
+  exact h
+
+/-- `snapshot_delta_exact` with the modelled rsync engine of C19 plugged in. -/
+theorem snapshot_delta_exact_rsync {D : Type} [DecidableEq D] (H : List UInt8 → D)
+    (hinj : ∀ a b, H a = H b → a = b) (blockSize : Bytes → Nat) (hbs : ∀ b, 0 < blockSize b)
+    (valid hasContent : Bytes → Bool) (st : Client) (hist : List (Bytes × ScanOutcome)) :
+    (scanHistory (rsyncCodec H blockSize) valid hasContent st hist).1 =
+      hist.map fun h => expectedScan valid h.2 :=
+  snapshot_delta_exact _ (rsync_codec_exact H hinj blockSize hbs) valid hasContent st hist
 
 /-- For valid snapshots a remote scan returns what the local endpoint returns. -/
 theorem remote_scan_eq_local {Sig Delta : Type} (c : Codec Sig Delta) (hc : c.Exact)
